@@ -372,6 +372,9 @@ def t_dropout_not(r: dict[str, Any]) -> onnx.ModelProto:
     return b.model()
 
 
+_RANGE_MIX_OPS = ("ConcatInput", "ConcatInputFirst", "ConcatConstBig", "AddInput", "SubInput", "MulInput", "MaxInput", "MinInput", "WhereInput", "GatherFromInput", "PadBig", "NegMulBig", "Tile", "Slice")
+
+
 def t_range_cast(r: dict[str, Any]) -> onnx.ModelProto:
     b = B(r["opset"])
     dt = _NP[r["T"]]
@@ -386,6 +389,41 @@ def t_range_cast(r: dict[str, Any]) -> onnx.ModelProto:
             mid = b.node("Reshape", [mid, b.const(np.array([-1, 1], np.int64))])
         elif op == "AddOne":  # not a shape-only op: must invalidate the range proof
             mid = b.node("Add", [mid, b.const(np.array(r.get("add", 1), dt))])
+        elif op in _RANGE_MIX_OPS:
+            # value-mixing ops: the other operand is an unbounded graph input (or a large constant)
+            n = int(r.get("n_emit", 5))
+            y = "y" if any(v.name == "y" for v in b.inputs) else b.inp([n], dt, name="y")
+            big = b.const(np.array([r.get("big", 2**40 + 7)] * n, dt))
+            if op == "ConcatInput":
+                mid = b.node("Concat", [mid, y], axis=0)
+            elif op == "ConcatInputFirst":
+                mid = b.node("Concat", [y, mid], axis=0)
+            elif op == "ConcatConstBig":
+                mid = b.node("Concat", [mid, big], axis=0)
+            elif op == "AddInput":
+                mid = b.node("Add", [mid, y])
+            elif op == "SubInput":
+                mid = b.node("Sub", [y, mid])
+            elif op == "MulInput":
+                mid = b.node("Mul", [mid, y])
+            elif op == "MaxInput":
+                mid = b.node("Max", [mid, y])
+            elif op == "MinInput":
+                mid = b.node("Min", [y, mid])
+            elif op == "WhereInput":
+                mid = b.node("Where", [b.node("Less", [mid, b.const(np.array(2, dt))]), mid, y])
+            elif op == "GatherFromInput":
+                mid = b.node("Gather", [y, b.node("Mod", [b.node("Abs", [mid]), b.const(np.array(n, dt))])], axis=0)
+            elif op == "PadBig":
+                mid = b.node("Pad", [mid, b.const(np.array([1, 1], np.int64)), b.const(np.array(r.get("big", 2**40 + 7), dt))])
+            elif op == "SumWithInput":
+                mid = b.node("Sum", [mid, y, y])
+            elif op == "NegMulBig":
+                mid = b.node("Mul", [b.node("Neg", [mid]), big])
+            elif op == "Tile":  # value preserving
+                mid = b.node("Tile", [mid, b.const(np.array([2], np.int64))])
+            elif op == "Slice":  # value preserving
+                mid = b.node("Slice", [mid, b.const(np.array([1], np.int64)), b.const(np.array([4], np.int64))])
     c1 = b.node("Cast", [mid], to=_DT[r["U"]])
     c2 = b.node("Cast", [c1], to=_DT[r["T"]])
     x = b.inp([1], dt)
